@@ -37,7 +37,7 @@ package vgirpc
 
 // classifyAuthError: the reason named by the AuthFailure in the chain (unclassified when it
 // names none); otherwise insufficient_scope for a direct PermissionError RpcError, and the
-// fallback for everything else — always a member of the closed set or the failure's own code.
+// fallback for everything else; writeUnauthorized then confines whatever it is handed to the closed set.
 //
 //@ func classifyAuthError
 //@   property C23
@@ -49,9 +49,11 @@ package vgirpc
 // writeUnauthorized: the reason header carries the reason (the fallback when empty), the
 // response is never cacheable, the configured challenge is echoed.
 //
+//@ pure func inClosedSet(r string) bool = r == "missing_credential" || r == "invalid_credential" || r == "expired_credential" || r == "insufficient_scope" || r == "proxy_required" || r == "unauthorized"
 //@ func (*HttpServer).writeUnauthorized
 //@   property C23
-//@   at call (http.Header).Set#2 assert [reason] arg1 == "VGI-Auth-Reason" && arg2 == (old(reason) == "" ? "unauthorized" : old(reason))
+//@   # (repaired defect: only the empty reason was replaced, an authenticator's own code went out verbatim)
+//@   at call (http.Header).Set#2 assert [reason] arg1 == "VGI-Auth-Reason" && inClosedSet(arg2) && arg2 == (inClosedSet(old(reason)) ? old(reason) : "unauthorized")
 //@   at call (http.Header).Set#3 assert [nostore] arg1 == "Cache-Control" && arg2 == "no-store"
 //@   at call (http.Header).Set#4 assert [challenge] arg1 == "WWW-Authenticate" && arg2 == h.wwwAuthenticate && arg2 != ""
 
